@@ -140,6 +140,14 @@ def run_case(case):
         # points at which single derivative entries vanish, so that the stored pattern MOVES while its size stays the same
         for q in ([0.0, 1.0], [1.0, -0.5], [-0.5, 1.0], [1.0, -1.0], [0.0, 1.0]):
             pts.append(np.array(q))
+    # scalar starts are broadcast, a missing start is the origin projected onto the box, missing multipliers are zero
+    for (sx, sy) in ((0.5, 0.25), (-1.0, 0.0), (None, None), (2, None)):
+        xfull = np.clip(np.zeros(n), F.var_lb, F.var_ub) if sx is None else np.full(n, float(sx))
+        yfull = np.zeros(m) if sy is None else np.full(m, float(sy))
+        its = tr.create_transformed_iterate(sx, sy)
+        rxs, rys = T.transform_sol(xfull, yfull)
+        if not eq(its.x, rxs) or not eq(its.y, rys):
+            bad("initial_iterate(scalar or missing start)", np.concatenate([its.x, its.y]), np.concatenate([rxs, rys]), [sx, sy])
     nev = 0
     for xu in pts:
         # transform_sol / restore_sol
